@@ -63,6 +63,9 @@ type Transition struct {
 	Path     []Step // including Step
 	Depth    int
 	Faulty   int // number of faulty steps on Path
+	// Base is the fault-free transition of the same step from the same state
+	// (set on faulty transitions only).
+	Base *Transition
 }
 
 // Config parameterises one search.
@@ -245,6 +248,7 @@ func (cfg *Config) expandStep(c *core.Ctx, drv, init string, n node, st Step, se
 			fs := st
 			fs.Fault = &sim.Fault{Label: call.Label, Occurrence: call.Occurrence, Kind: kind}
 			ft := cfg.exec(drv, init, n.w, n.hist, n.path, fs, n.faulty+1)
+			ft.Base = t
 			if !ft.Res.FaultHit {
 				// the call list of the fault-free run must reproduce: determinism guard
 				c.NotExhaustive("fault %s not reached when re-running %s", fs.Fault, st.Op.Short())
@@ -292,6 +296,11 @@ func (cfg *Config) ReplayPath(c *core.Ctx, r Replay) []*Transition {
 			faulty++
 		}
 		t := cfg.exec(r.Driver, r.Init, w, hist, path, st, faulty)
+		if st.Fault != nil {
+			bs := st
+			bs.Fault = nil
+			t.Base = cfg.exec(r.Driver, r.Init, w, hist, path, bs, faulty-1)
+		}
 		if cfg.Check != nil {
 			cfg.Check(c, t)
 		}
